@@ -4,7 +4,7 @@
 From Coq Require Import List ZArith QArith Qcanon Bool Arith.
 From Dimod Require Import Base.Util Model.Poly Model.View Model.Hist Model.ChkC04
   Proofs.PolyFacts Proofs.ViewFacts Proofs.HistFacts Proofs.HistWf Proofs.HistWf2 Proofs.HistAtomic
-  Proofs.HistContract Proofs.HistAtomicQM Proofs.HistQmAtomic Proofs.HistQmPres Proofs.HistLoops Proofs.HistBqmReach Proofs.HistViewStep Proofs.HistViewStep2 Proofs.HistViewStep3 Proofs.HistContractView Gen.Gen_ViewWrites Proofs.HistGenTie2 Gen.Gen_QmLimits Gen.Gen_RelabelRules Proofs.HistGenTie Proofs.HistBackends Proofs.HistCoeffEq.
+  Proofs.HistContract Proofs.HistAtomicQM Proofs.HistQmAtomic Proofs.HistQmPres Proofs.HistLoops Proofs.HistBqmReach Proofs.HistViewStep Proofs.HistViewStep2 Proofs.HistViewStep3 Proofs.HistContractView Gen.Gen_ViewWrites Proofs.HistGenTie2 Gen.Gen_QmLimits Gen.Gen_RelabelRules Proofs.HistGenTie Proofs.HistBackends Proofs.HistCoeffEq Proofs.HistCoeffScale.
 From Dimod Require Model.Adj Proofs.AdjFacts.
 Import ListNotations.
 Open Scope Qc_scope.
@@ -500,32 +500,34 @@ Print Assumptions C04_resize_shrink_keeps_prefix.
 (* `ceq s s'`: same kind, same SET of variable records, same offset, same linear bias per variable, same bias per
    unordered pair, same set of interactions present - the order of the variables and of the stored terms is free.
    Equivalently (C04_coefficient_equivalence_iff_energy): same kind / variables / interaction set and the same energy
-   on every sample.  `R s s'`: both are well-formed BQMs and ceq.  `ceq_ok`: every call of the model, on the base object
-   or through any .spin/.binary handle (translating or not) - primitive writes, *_from loops, named remove_variable,
-   remove_interaction, contract_variables, flip_variable, fix_variable, update, change_vartype, relabel_variables,
-   offset, clear, plain scale (and the QuadraticModel-only calls, refused at once) - EXCEPT the calls that address a
-   variable by its POSITION in the order (pop, resize, relabel_variables_as_integers: refuted below) and scale with
-   ignored sets / through a handle (its pair loop visits each pair in an order-dependent ORIENTATION; not proved).
-   The neighbourhood loops of flip / fix / contract / remove_variable-through-a-view run over differently ordered
-   neighbourhoods on the two sides; the proof shows that their steps never raise and commute up to ceq. *)
+   on every sample.  `R s s'`: both are well-formed BQMs and ceq.
+   `ceq_ok_all`: EVERY call of the model, on the base object or through any
+   .spin/.binary handle (translating or not) - primitive writes, *_from loops, named remove_variable, remove_interaction,
+   contract_variables, flip_variable, fix_variable, update, change_vartype, relabel_variables, offset, clear, scale in every
+   form (ignored_variables / ignored_interactions / ignore_offset, through handles) and the QuadraticModel-only calls
+   (refused at once) - EXCEPT the calls that address a variable by its POSITION in the order (pop, resize,
+   relabel_variables_as_integers: refuted below); C04_covered_calls_exclude_only_positional says that nothing else is left out.
+   The loops of flip / fix / contract / remove_variable-through-a-view / scale run over differently ordered neighbourhoods,
+   variable lists and pair lists (the latter also differently ORIENTED) on the two sides; the proof shows that their steps
+   never raise, commute up to ceq and do not depend on the orientation of a pair. *)
 Theorem C04_backends_equivalent_histories :
-  forall l s s', forallb ceq_ok l = true -> B s -> wf s -> B s' -> wf s' -> ceq s s' ->
+  forall l s s', forallb ceq_ok_all l = true -> B s -> wf s -> B s' -> wf s' -> ceq s s' ->
     outcomes s l = outcomes s' l /\ ceq (run s l) (run s' l)
     /\ forall y, energy (st_poly (run s l)) y = energy (st_poly (run s' l)) y.
-Proof. exact ceq_histories_energy. Qed.
+Proof. exact ceq_histories_all_energy. Qed.
 Print Assumptions C04_backends_equivalent_histories.
 
 (* the same with the dict-order discipline of the object-dtype back-end on the right (relabel_variables re-inserts the
    relabelled variables at the end): generalises C04_backends_indistinguishable from `sim` (same term list) to `ceq` *)
 Theorem C04_backends_equivalent_histories_dict_order :
-  forall l s s', forallb ceq_ok l = true -> R s s' ->
+  forall l s s', forallb ceq_ok_all l = true -> R s s' ->
     outcomes s l = outcomes s' (py_hist l) /\ R (run s l) (run s' (py_hist l)).
-Proof. exact ceq_histories_py. Qed.
+Proof. exact ceq_histories_all_py. Qed.
 Print Assumptions C04_backends_equivalent_histories_dict_order.
 
 Theorem C04_backends_equivalent_step :
-  forall s s' ho, ceq_ok ho = true -> R s s' -> Rr (step s ho) (step s' ho).
-Proof. exact ceq_step. Qed.
+  forall s s' ho, ceq_ok_all ho = true -> R s s' -> Rr (step s ho) (step s' ho).
+Proof. exact ceq_step_all. Qed.
 Print Assumptions C04_backends_equivalent_step.
 
 (* one lemma per looping call *)
@@ -553,6 +555,47 @@ Theorem C04_equivalent_set_linear_any_handle :
   forall h v b s s', R s s' -> Rr (h_set_linear h v b s) (h_set_linear h v b s').
 Proof. exact Rr_h_set_linear. Qed.
 Print Assumptions C04_equivalent_set_linear_any_handle.
+
+(* scale: every argument combination, every handle *)
+Theorem C04_equivalent_scale :
+  forall h k iv ii io s s', R s s' -> Rr (m_scale h k iv ii io s) (m_scale h k iv ii io s').
+Proof. exact Rr_m_scale. Qed.
+Print Assumptions C04_equivalent_scale.
+
+(* the three facts behind it: set_quadratic (base object or view) does not depend on the orientation of the pair ... *)
+Theorem C04_set_quadratic_orientation :
+  forall h u w c a, B a -> u <> w -> has_var a u = true -> has_var a w = true ->
+    snd (h_set_quadratic h u w c a) = Ok /\ snd (h_set_quadratic h w u c a) = Ok
+    /\ ceq (fst (h_set_quadratic h u w c a)) (fst (h_set_quadratic h w u c a)).
+Proof. exact set_quadratic_orientation. Qed.
+Print Assumptions C04_set_quadratic_orientation.
+
+(* ... iter_quadratic lists every unordered interaction exactly once (np = the pair with its smaller label first) ... *)
+Theorem C04_pairs_listed_exactly_once :
+  forall q vs, NoDup vs -> (forall v, In v vs -> has_pair q v v = false) -> NoDup (map np (pairs_in q vs)).
+Proof. exact pairs_in_once. Qed.
+Print Assumptions C04_pairs_listed_exactly_once.
+
+(* ... and the lists of two equivalent states are permutations of each other up to flipping elements *)
+Theorem C04_pairs_permutation_up_to_flip : forall s s', R s s' -> PermF (pairs s) (pairs s').
+Proof. exact pairs_permF. Qed.
+Print Assumptions C04_pairs_permutation_up_to_flip.
+
+Theorem C04_covered_calls_exclude_only_positional :
+  forall ho, ceq_ok_all ho = false ->
+    match snd ho with
+    | ORemoveVariable None | OResize _ _ | ORelabelInts _ | ORelabelPy _ | ORelabelIntsPy _ => True
+    | _ => False
+    end.
+Proof. exact ceq_ok_all_excludes. Qed.
+Print Assumptions C04_covered_calls_exclude_only_positional.
+
+Example C04_example_equivalent_scale_history :
+  forallb ceq_ok_all ex_shist = true /\ outcomes ex_ca ex_shist = [Ok; Ok; Ok]
+  /\ ceqb 6 (run ex_ca ex_shist) (run ex_cb ex_shist) = true
+  /\ st_poly (run ex_ca ex_shist) <> st_poly (run ex_cb ex_shist)
+  /\ pairs ex_ca <> pairs ex_cb.
+Proof. exact ex_scale_history. Qed.
 
 Theorem C04_coefficient_equivalence_iff_energy :
   forall s s', ceq s s' <->
